@@ -5,6 +5,7 @@ import (
 	"sync"
 
 	"github.com/ajitpratap0/GoSQLX/pkg/metrics"
+	"github.com/ajitpratap0/GoSQLX/pkg/sql/keywords"
 )
 
 // bufferPool is used to reuse bytes.Buffer instances during tokenization.
@@ -111,6 +112,12 @@ func GetTokenizer() *Tokenizer {
 func PutTokenizer(t *Tokenizer) {
 	if t != nil {
 		t.Reset()
+		// Reset keeps the dialect (Tokenize calls it on every run); the next
+		// holder must get a default-configured tokenizer.
+		if t.dialect != keywords.DialectPostgreSQL {
+			t.dialect = keywords.DialectPostgreSQL
+			t.keywords = keywords.NewKeywords()
+		}
 		tokenizerPool.Put(t)
 
 		// Record pool return
